@@ -116,7 +116,7 @@ def gen(tier, rng):
     return out
 
 
-def oracle(lines, out):
+def oracle(lines, out, spec=None):
     """Property predicates evaluated on the implementation's observations alone."""
     fails = []
     keys = {}        # bloom id -> set of keys certainly in it
